@@ -7,6 +7,7 @@ package main
 
 import (
 	"bytes"
+	"encoding/json"
 	"fmt"
 	"io"
 	"net/http"
@@ -259,5 +260,75 @@ func c09AttackKill(c *Ctx, run *ev.Run) {
 			run.Count("attack_kill_runs_with_stalled_output", 1)
 		}
 		run.Sample(det)
+	}
+}
+
+// c09Pump drives the attack command's own result pump (processAttack, through the in-module
+// probe) with several goroutines handing results over at once, as the workers of an attack do,
+// and watches the encoder it was given: when the encoder is called for the k-th time exactly k
+// results have been taken - each result is written as it arrives, none is held back while
+// others are collected.
+func c09Pump(c *Ctx, run *ev.Run) {
+	if _, err := os.Stat(c.Bin("probe.test")); err != nil {
+		run.Inconclusive("probe binary missing: " + err.Error())
+		return
+	}
+	dir, err := os.MkdirTemp("", "verif-c09pump-")
+	if err != nil {
+		run.Inconclusive(err.Error())
+		return
+	}
+	defer os.RemoveAll(dir)
+	type cmdT struct{ Results, Feeders int }
+	cmds := []cmdT{{20000, 8}, {5000, 32}, {3000, 2}, {20000, 1}}
+	if !c.Quick() {
+		cmds = append(cmds, cmdT{200000, 16}, cmdT{50000, 64}, cmdT{100000, 4})
+	}
+	in, out := filepath.Join(dir, "in"), filepath.Join(dir, "out")
+	var sb bytes.Buffer
+	for _, cm := range cmds {
+		fmt.Fprintf(&sb, `{"op":"pump","results":%d,"feeders":%d}`+"\n", cm.Results, cm.Feeders)
+	}
+	_ = os.WriteFile(in, sb.Bytes(), 0o644)
+	ex := exec.Command(c.Bin("probe.test"), "-test.run", "^TestVerifProbe$", "-test.count=1")
+	ex.Env = append(os.Environ(), "VERIF_PROBE_IN="+in, "VERIF_PROBE_OUT="+out)
+	if b, err := ex.CombinedOutput(); err != nil {
+		run.Violate("C09/pump/probe-died", fmt.Sprintf("the result pump of the attack command crashed: %v: %s", err, tail(string(b), 1200)), map[string]any{"output": tail(string(b), 4000)})
+		return
+	}
+	data, err := os.ReadFile(out)
+	if err != nil {
+		run.Inconclusive(err.Error())
+		return
+	}
+	lines := bytes.Split(bytes.TrimSpace(data), []byte("\n"))
+	if len(lines) != len(cmds) {
+		run.Inconclusive(fmt.Sprintf("probe answered %d of %d pump commands", len(lines), len(cmds)))
+		return
+	}
+	for i, l := range lines {
+		var a struct {
+			Err     string `json:"err"`
+			Panic   string `json:"panic"`
+			Written int    `json:"written"`
+			MaxLag  int    `json:"max_lag"`
+		}
+		if err := json.Unmarshal(l, &a); err != nil {
+			run.Inconclusive("bad probe answer")
+			continue
+		}
+		run.Eval(1)
+		run.Count("pump_runs", 1)
+		run.Count("pump_results_handed_over", int64(cmds[i].Results))
+		det := map[string]any{"results": cmds[i].Results, "goroutines_handing_over": cmds[i].Feeders, "answer": json.RawMessage(l)}
+		switch {
+		case a.Err != "" || a.Panic != "":
+			run.Violate("C09/pump/error", fmt.Sprintf("result pump fed by %d goroutines: err=%q panic=%q", cmds[i].Feeders, a.Err, a.Panic), det)
+		case a.Written != cmds[i].Results:
+			run.Violate("C09/pump/results-not-written", fmt.Sprintf("result pump was handed %d results and wrote %d", cmds[i].Results, a.Written), det)
+		case a.MaxLag > 0:
+			run.Violate("C09/pump/results-held-back", fmt.Sprintf("result pump fed by %d goroutines: at some call of the encoder %d results had been taken that were not yet passed on to it (each result is to be written as it arrives)", cmds[i].Feeders, a.MaxLag), det)
+		}
+		run.Distinct(fmt.Sprintf("pump:%d:%d", cmds[i].Results, cmds[i].Feeders))
 	}
 }
